@@ -156,6 +156,8 @@ func (w *world) randomCmd(fn fin, disciplined bool) string {
 				op = "I"
 			case y < 8:
 				op, v = "C", 0
+			case y < 10:
+				v = 0 // Put of an empty value (present, unlike a Delete)
 			}
 			as := "n"
 			switch w.rng.Intn(8) {
@@ -176,8 +178,8 @@ func (w *world) randomCmd(fn fin, disciplined bool) string {
 		var ks []string
 		force := w.rng.Intn(6) == 0
 		n := 2
-		if force {
-			n = 1
+		if force && w.rng.Intn(3) != 0 {
+			n = 1 // the client sends single-key ForceLock requests; multi-key ones (incl. the result-count panic) are exercised too
 		}
 		for _, k := range w.keyset(n) {
 			if disciplined && fn[[2]uint64{k, t.s}] {
@@ -296,6 +298,27 @@ func (w *world) randomCmd(fn fin, disciplined bool) string {
 	case x < 85: // gc
 		s, e := w.rng2()
 		return fmt.Sprintf("gc %s %s %s", hx(s), hx(e), hx(w.readTS()))
+	case x < 88 && w.rng.Intn(2) == 0:
+		s, e := w.rng2()
+		if w.rng.Intn(2) == 0 {
+			return fmt.Sprintf("ms %s", hx(t.s))
+		}
+		if s == 0 && e == 0 && w.rng.Intn(3) != 0 {
+			s = w.key()
+			e = s + 1
+		}
+		return fmt.Sprintf("dr %s %s", hx(s), hx(e))
+	case x < 91 && w.rng.Intn(4) == 0:
+		s, e := w.rng2()
+		switch w.rng.Intn(4) {
+		case 0:
+			return fmt.Sprintf("rcget %s %s", hx(w.key()), hx(w.readTS()))
+		case 1:
+			return fmt.Sprintf("rcbg %s %s", joinU(w.keyset(3)), hx(w.readTS()))
+		case 2:
+			return fmt.Sprintf("rcsc %s %s %s %s", hx(s), hx(e), hx(uint64(w.rng.Intn(5))), hx(w.readTS()))
+		}
+		return fmt.Sprintf("rcrs %s %s %s %s", hx(s), hx(e), hx(uint64(w.rng.Intn(5))), hx(w.readTS()))
 	case x < 91:
 		return fmt.Sprintf("get %s %s %s", hx(w.key()), hx(w.readTS()), w.resolved())
 	case x < 94:
